@@ -129,6 +129,9 @@ def run(ctx):
     from . import c15 as _c15
     _reuse(ctx, _c15.evidence_dtype_rule, ("C15.evid",), "C08evid", "precision rule shared with C15: the total is rebuilt from the recorded series; increments narrowed to Python floats come back in the "
            "namespace's default width (float32 under torch), so the reported log-evidence is not the sum of the recorded increments to the run's precision")
+    from . import c10 as _c10
+    _reuse(ctx, lambda c: _c10.own_rule(c, fields=SERIES), ("C10.own",), "C08own", "ownership rule shared with C10: the recorded increments are summed again by every later reader (a resumed run, "
+           "a second look at the history); an accumulation that happens inside the first recorded item changes the series it is the sum of")
     _reuse(ctx, _c11.run, ("C11.cut",), "C08cut", "cut-point rule shared with C11: a checkpoint taken before the iteration's ratio is recorded makes a resumed run drop that step from the evidence")
     S = repo.cls("aspire.samples:SMCSamples")
     N = T.app("len", self_attr("x"))
@@ -320,7 +323,15 @@ MUTANTS += [
     M("increment computed in the loop from the weights of the previous temperature", "src/aspire/samplers/smc/base.py", "log_evidence_ratio = samples.log_evidence_ratio(beta)",
       "log_evidence_ratio = logsumexp(samples.unnormalized_log_weights(samples.beta)) - math.log(len(samples.x))", "C08.pre", more=_IMP),
 ]
+MUTANTS += [
+    M("evidence total accumulated in place into the first recorded increment", "src/aspire/samplers/smc/base.py", "samples.log_evidence = samples.xp.sum(\n            asarray(self.history.log_norm_ratio, self.xp)\n        )",
+      "samples.log_evidence = asarray(_running_total(self.history.log_norm_ratio), samples.xp)", "C08own.own",
+      more=[("class SMCSampler(MCMCSampler):", "def _running_total(values):\n    total = values[0]\n    for value in values[1:]:\n        total += value\n    return total\n\n\nclass SMCSampler(MCMCSampler):")]),
+]
 NEUTRALS = [
+    M("evidence total accumulated by a helper loop into a fresh local", "src/aspire/samplers/smc/base.py", "samples.log_evidence = samples.xp.sum(\n            asarray(self.history.log_norm_ratio, self.xp)\n        )",
+      "samples.log_evidence = asarray(_running_total(self.history.log_norm_ratio), samples.xp)",
+      more=[("class SMCSampler(MCMCSampler):", "def _running_total(values):\n    total = 0.0\n    for value in values:\n        total = total + value\n    return total\n\n\nclass SMCSampler(MCMCSampler):")]),
     M("increment computed in the loop from the incremental weights of this iteration's temperature", "src/aspire/samplers/smc/base.py", "log_evidence_ratio = samples.log_evidence_ratio(beta)",
       "log_evidence_ratio = logsumexp(samples.unnormalized_log_weights(beta)) - math.log(len(samples.x))", more=_IMP),
     __import__("aspire_sa.rules.smcloop", fromlist=["HELPER_NEUTRAL"]).HELPER_NEUTRAL,
